@@ -279,6 +279,13 @@ func (st *Schema) toIndexColumns(ci []sql.IndexedColumn) []IndexColumn {
 					collate = col.Collate
 				}
 				c.Collate = collate
+			} else {
+				// No such column. SQLite takes a double-quoted name it does
+				// not know for a string literal: the index is on a constant
+				// expression, ordered by the COLLATE given with it.
+				c.Column = ""
+				c.Expression = "'" + col.Column + "'"
+				c.Collate = col.Collate
 			}
 		} else {
 			// an expression is ordered by the COLLATE given with it
